@@ -73,6 +73,32 @@ func TestC10(t *testing.T) {
 		}
 	}
 
+	// (1b) scheduled client scenarios: concurrent calls / batches / notifications, callbacks, context
+	// ends, Close, peer EOF, Recv and Send failures, undecodable records - under the deterministic
+	// scheduler, which can also pause inside a Send or Close that is not serialised by the client's mutex
+	for i := 0; i < pick(120, 1200); i++ {
+		sc := cliTraffic(rng, 1+rng.Intn(4), true)
+		if i%3 == 0 { // the reader fails while other goroutines are using the client
+			sc.RecvFailAt = 1 + rng.Intn(3)
+			sc.RecvFailEOF = rng.Intn(2) == 0
+		}
+		for j := 0; j < pick(4, 10); j++ {
+			r := runClientScenario(t, sc, seededPick(rng))
+			in := map[string]any{"cliscenario": sc, "choices": r.Choices}
+			res.Case("clisched/"+logShape(r.Log), true, map[string]any{"ops": len(sc.Ops), "choices": len(r.Choices)})
+			res.Count("scheduled-client")
+			for _, p := range r.cch.st.Problems() {
+				res.Violatef("channel contract broken by the client: "+firstWords(p, 6), in, "%s", p)
+			}
+			if c := r.cch.st.closes.Load(); c > 1 {
+				res.Violatef(fmt.Sprintf("client called Close %d times for one connection", c), in, "log: %s", shortLog(r.Log))
+			}
+			if r.Stuck != "" {
+				res.Violatef("client run did not finish: "+r.Stuck, in, "log: %s", shortLog(r.Log))
+			}
+		}
+	}
+
 	// (2) free-running server contention
 	for round := 0; round < pick(30, 300); round++ {
 		cli, sch := newVPair()
@@ -150,6 +176,10 @@ func TestC10(t *testing.T) {
 						cli.Call(ctx, "m", nil)
 					case 1:
 						cli.Notify(ctx, c10Methods[k%len(c10Methods)], []int{k})
+						// pre-encoded parameters that are not one well-formed JSON value must be refused, not sent
+						if err := cli.Notify(ctx, "q", json.RawMessage([]string{`{"name":"value"`, `[1,2,`, `[1,2][3]`, `{"a":1}}`}[k%4])); err == nil {
+							cch.st.problem("malformed pre-encoded params were accepted by Notify")
+						}
 					case 2:
 						cli.Batch(ctx, []jrpc2.Spec{{Method: "q"}, {Method: "m"}, {Method: c10Methods[k%len(c10Methods)], Notify: true}, {Method: c10Methods[(k+1)%len(c10Methods)]}})
 					}
